@@ -386,3 +386,37 @@ PROPS["C30"] = {
               "thorough": {"evaluations": 120000, "distinct": 2000}},
     "assumptions": ["hang verdicts are taken at quiescence of the deterministic scheduler (no wall clock)"],
 }
+
+PROPS["C38"] = {
+    "level": "fault_enumeration",
+    "plan": zb_plan(("release", "asan")),
+    "rule": ("one scripted p2p session (three pending calls with a filtered and an unfiltered MessageStream open; the peer's scripted "
+             "inbound stream carries signals, the reply to call 1, more signals, the reply to call 2, trailing signals; call 3 is "
+             "never answered) is dry-run once to learn the inbound byte count B and the number W of write calls; then the fault "
+             "{EOF, I/O error} is injected at EVERY inbound byte offset 0..=B and {error, error-after-partial-write} at EVERY write "
+             "call 0..W, each under several scheduler seeds/biases; at quiescence: no call or send is still pending, calls whose "
+             "reply was completely received succeed and all others fail, each stream yields exactly the completely received "
+             "messages that match it and then ends, a later call and a later subscription fail (do not hang), no panic; distinct = "
+             "distinct (fault, schedule fingerprint)"),
+    "gates": {"quick": {"evaluations": 1500, "distinct": 1200, "class:mid-fixed-header": 300, "class:mid-header-fields": 800, "class:mid-body": 500, "class:between-messages": 20, "class:after-last-message": 2, "class:write-call": 150, "fault_positions_total": 1000},
+              "thorough": {"evaluations": 10000, "distinct": 8000}},
+    "exhaustive_note": "every inbound byte offset (classes.inbound_bytes + 1 positions x {EOF, error}) and every write call of the scripted session (classes.fault_positions_total)",
+    "assumptions": ["'promptly' is judged at quiescence of the deterministic scheduler (a task that is still pending when nothing can make progress is a hang); no wall clock",
+                    "one session script; other message mixes are covered by C13/C14/C19 without faults"],
+}
+
+PROPS["C39"] = {
+    "level": "exploration",
+    "plan": zb_plan(("release", "asan")),
+    "rule": ("drop cases: a p2p connection with a random set of outstanding handles (Connection clones, MessageStreams filtered or "
+             "not, Proxies with and without property cache, SignalStreams, an ObjectServer with interfaces, pending inbound "
+             "traffic) dropped in a random order interleaved with scheduler steps; the peer must NOT see EOF while any handle is "
+             "alive and MUST see it at quiescence after the last is dropped. graceful-shutdown cases: 1..4 method handlers parked "
+             "on harness gates, graceful_shutdown() started; it must not complete nor close the transport while a gate is closed; "
+             "gates are opened one by one in random order; after the last it must complete, every in-flight call must have its "
+             "reply on the wire, and the transport must be closed; distinct = distinct (handle set / order, schedule fingerprint)"),
+    "gates": {"quick": {"evaluations": 2500, "distinct": 2000, "class:drop": 1500, "class:graceful-shutdown": 700, "handles_dropped": 6000},
+              "thorough": {"evaluations": 100000, "distinct": 60000}},
+    "assumptions": ["harness futures that can never finish because the scripted peer does not answer (cache-priming proxy builds) are cancelled before the verdict; they hold connection clones of their own",
+                    "EOF is observed as the drop of both scripted socket halves"],
+}
